@@ -115,6 +115,19 @@ def wl_lookup(seed):
             'calls': [('evaluate', f'Sheet1!E{i}', {}) for i in (1, 2, 3, 4, 5, 6, 7)]}
 
 
+def wl_cellref(seed):
+    """functions that are handed a reference and look the cell up themselves (CELL, INDEX over a reference): they
+    have to look it up in the workbook of the formula that called them.  Every workbook of this kind has the same
+    sheet name and addresses, and values of its own."""
+    k = 1 + seed % 9
+    cells = {'A1': 11 * k, 'A2': 7 * k, 'B1': '=CELL("contents",OFFSET(A1,0,0))', 'B2': '=INDEX(OFFSET(A1,0,0,2,1),2,1)',
+             'C1': '=B1+B2'}
+    spec = {'sheets': [['Data Sheet', cells]], 'names': {}, 'arrays': [], 'calc': None}
+    return {'name': 'cellref', 'spec': spec,
+            'calls': [('evaluate', 'Data Sheet!C1', {}), ('set_value', 'Data Sheet!A1', {'value': 5 * k}),
+                      ('evaluate', 'Data Sheet!B1', {}), ('evaluate', 'Data Sheet!C1', {})]}
+
+
 def wl_book(book, calls):
     """a workbook shipped with the repository (formulas only: everything is computed)"""
     return {'name': f'book({book})', 'book': book, 'calls': calls}
@@ -128,7 +141,7 @@ def workloads(seed):
                                       ('evaluate', 'ArrayForm!H30', {})]),
             wl_book('circular', [('evaluate', 'Sheet1!B3', {}), ('set_value', 'Sheet1!B3', {'value': k}),
                                  ('evaluate', 'Sheet1!B1', {}), ('evaluate', 'Sheet1!B8', {})]),
-            wl_lookup(seed),
+            wl_lookup(seed), wl_cellref(seed),
             wl_offset(seed)]
 
 
@@ -353,7 +366,8 @@ def same_results(a, b):
 
 def one_schedule(ctx, ia, ib, seed, plan, points, warm, refs):
     ws = workloads(seed)
-    wa, wb_ = ws[ia], workloads(seed + 3)[ib] if ib == len(ws) - 1 else ws[ib]
+    # thread B works on a workbook of the same kind with other values (what leaks between the two is then seen)
+    wa, wb_ = ws[ia], workloads(seed + 3)[ib] if ws[ib]['name'] in OTHER_VALUES_FOR_B else ws[ib]
     case = {'kind': 'schedule', 'a': ia, 'b': ib, 'seed': seed, 'plan': [list(p) for p in plan],
             'points': list(points), 'warm': warm}
     box, passes, sched = scheduled(wa, wb_, plan, points, warm)
@@ -376,7 +390,7 @@ def one_schedule(ctx, ia, ib, seed, plan, points, warm, refs):
         return sig
     ctx.count(f'pair:{wa["name"].split("(")[0]}+{wb_["name"].split("(")[0]}')
     for name, idx in (('A', ia), ('B', ib)):
-        rkey = 'B-offset' if (name == 'B' and ib == len(ws) - 1) else idx
+        rkey = ('B', idx) if (name == 'B' and ws[idx]['name'] in OTHER_VALUES_FOR_B) else idx
         ref_out, ref_passes, _ = refs[(rkey, bool(warm.get(name)))]
         got = box[name]
         if got[0] == 'x' and ref_out[0] == 'v':
@@ -406,10 +420,16 @@ def references(seed):
     for i, wl in enumerate(ws):
         for warm in (False, True):
             refs[(i, warm)] = solo(wl, warm)
-    # thread B runs the computed-reference workload on a workbook with other values
-    for warm in (False, True):
-        refs[('B-offset', warm)] = solo(workloads(seed + 3)[len(ws) - 1], warm)
+    # thread B runs these workloads on a workbook with other values
+    other = workloads(seed + 3)
+    for i, wl in enumerate(ws):
+        if wl['name'] in OTHER_VALUES_FOR_B:
+            for warm in (False, True):
+                refs[(('B', i), warm)] = solo(other[i], warm)
     return refs
+
+
+OTHER_VALUES_FOR_B = ('offset', 'cellref', 'lookup')
 
 
 def schedules(ctx):
@@ -418,7 +438,7 @@ def schedules(ctx):
     refs = references(seed)
     for (i, warm), (out, passes, counts) in refs.items():
         if out[0] != 'v' or any(o[0] == 'x' for o in out[1]):
-            wl = workloads(seed)[i if isinstance(i, int) else -1]
+            wl = workloads(seed)[i if isinstance(i, int) else i[1]]
             ctx.violation(f'solo-run-on-a-fresh-thread-raises/{wl["name"].split("(")[0]}',
                           f'{wl["name"]} alone on a {"warmed-up" if warm else "fresh"} thread: {out!r}',
                           {'kind': 'solo', 'i': i, 'seed': seed, 'warm': warm})
